@@ -356,7 +356,8 @@ def _schedule_one(fam, k, D, st, interrupt, rng, F, Chain, Normal, BaseAdaptiveS
 
     def build(seed):
         pr = random.Random(12345)
-        slow = F.make(fam, names, doms, pr, jump_interval=k, window=D, start_step=st)
+        slow = F.make(fam, names, doms, pr, jump_interval=k, window=D, start_step=st,
+                      optional=(k * 31 + D * 7 + st) if (k + D + st) % 2 else None)
         fast = Normal(['z'], cov=[0.3])
         return Chain(names + ['z'], model, [slow, fast], bit_generator=seed, beta=0.5), slow
 
